@@ -410,10 +410,13 @@ def _check_nested(spec):
     def _nonpauli(o):
         return o["op"] in ("Hermitian", "sum", "s_prod") or any(_nonpauli(x) for x in o.get("operands", []))
 
-    # (the former feature hadamard_second_order_no_generator is gone: its GeneratorUndefinedError came from the constant U3 layer that every
-    #  circuit starts with - hadamard_grad marked all parameters of its derivative tapes trainable - and is repaired in /repo)
+    # direct / reversed-direct hadamard_grad marks every parameter of its derivative tapes trainable, so the second-order pass also
+    # differentiates gates without a generator even when their parameters are constants (every generated circuit starts with a constant
+    # U3 layer): input class = direct-hadamard second order on a circuit containing a generator-less gate
+    nogen = any(o["op"] in ("U2", "U3", "Rot", "CRot") for o in base._walk_ops(prog["ops"]))
     nfeats = {"kind": "nested", "iface": iface, "method": method,
               "hadamard_autograd_multi_second_order": method == "direct-hadamard" and iface == "autograd" and len(prog["meas"]) >= 2,
+              "hadamard_second_order_no_generator": method == "direct-hadamard" and nogen,
               "jax_second_order_obs_param": iface == "jax" and method == "parameter-shift" and any(_nonpauli(m["obs"]) for m in prog["meas"] if m.get("obs")),
               "torch_second_order_var": iface == "torch" and method == "parameter-shift" and any(m["mp"] == "var" for m in prog["meas"]),
               "autograd_multi_measurement": iface == "autograd" and method != "backprop" and len(prog["meas"]) >= 2}
